@@ -135,8 +135,16 @@ class Scheduler:
     def _trace(self, frame, event, arg):
         if event != "call" or self.aborting:
             return None
-        if self.watch(frame.f_code):
+        code = frame.f_code
+        w = self.watch
+        if w(code):
             return self._local_trace
+        if getattr(w, "follow", False) and code.co_filename in w.files and code not in w.exclude:
+            # a function of the same source file called from watched code is watched as well, so that moving a racy
+            # sequence into a helper does not hide it from the scheduler
+            back = frame.f_back
+            if back is not None and back.f_trace is not None:
+                return self._local_trace
         return None
 
     def _local_trace(self, frame, event, arg):
@@ -523,7 +531,27 @@ class UuidShim(types.ModuleType):
         return getattr(_real_uuid, name)
 
 
-def watch_functions(*funcs):
+class Watch:
+    """predicate(code) for Scheduler(watch=...).  With follow=True, functions defined in the same source files as the watched
+    ones become watched too while they are called (directly) from a watched frame, except the code objects in `exclude`."""
+
+    def __init__(self, codes, follow=False, exclude=()):
+        self.codes = codes
+        self.follow = follow
+        self.files = {c.co_filename for c in codes}
+        self.exclude = set(exclude)
+
+    def __call__(self, code):
+        return code in self.codes
+
+
+def code_objects(*funcs):
+    """the set of code objects behind functions / methods / classes (with nested functions)"""
+    w = watch_functions(*funcs)
+    return set(w.codes)
+
+
+def watch_functions(*funcs, follow=False, exclude=()):
     """predicate for Scheduler(watch=...) from a list of functions / methods / classes"""
     codes = set()
 
@@ -550,7 +578,7 @@ def watch_functions(*funcs):
                     _add_code(c, codes)
     for f in funcs:
         add(f)
-    return codes.__contains__
+    return Watch(codes, follow, exclude)
 
 
 def _add_code(code, codes):
